@@ -24,10 +24,10 @@ SPEC = dict(
          "statement does not demand a complete sweep).",
     floors=T({"evaluations": 15000, "distinct_nontrivial": 8000, "ops": 2000000, "evictions": 100000, "expiry-miss": 50000,
               "latitude-window-lookups": 5000, "sweeps": 50000, "clear": 10000, "default-capacity": 100, "searchcache-ops": 100000,
-              "manager-capacity": 16, "manager-ttl": 16},
+              "manager-capacity": 16, "manager-ttl": 16, "histories-lru-long": 15},
              {"evaluations": 400000, "distinct_nontrivial": 200000, "ops": 50000000, "evictions": 2500000, "expiry-miss": 1250000,
               "latitude-window-lookups": 125000, "sweeps": 1250000, "clear": 250000, "default-capacity": 2500, "searchcache-ops": 2500000,
-              "manager-capacity": 16, "manager-ttl": 16}),
+              "manager-capacity": 16, "manager-ttl": 16, "histories-lru-long": 800}),
     assumptions=[
         "virtual time: every advance is a multiple of 10 s and every lifetime is 5 s off that grid (1h0m5s, 1m5s; the manager check probes "
         "DefaultCacheTTL -5 s / +5 s), so the real micro-seconds elapsed during a history cannot change an expiry decision; a history "
